@@ -210,6 +210,11 @@ func genReplset(prop string, seed uint64, tier string) *Scenario {
 		k.AofAckMode = 1 // majority: the cut-off members are not needed for an acknowledgement
 	}
 	k.DBLockAofTime = 0
+	if rot := ssched.Sub(seed, "rotate"); rot.Intn(3) == 0 {
+		// drawn from a generator of its own: logs that rotate every few records, so that the members'
+		// positions differ in the file index as well as in the record count
+		k.AofFileRewriteSize = uint(12 + 64*(2+rot.Intn(6)))
+	}
 	sc := &Scenario{Knobs: k, Sched: genSched(r, seed), Body: raw, MaxSimS: 6000}
 	sc.Net = NetCfg{LatencyUs: 200 + r.Intn(300)}
 	if r.Intn(3) == 0 {
